@@ -1,0 +1,1 @@
+//! Hooks of group 'auth' for the /verif machinery.
